@@ -24,6 +24,9 @@ pub struct Case {
     pub steps: u64,
     pub inner_steps: u64,
     pub extra: Vec<String>,
+    /// run once with exactly this many replications instead of 1..max_replications
+    #[serde(default)]
+    pub fixed_replications: Option<u64>,
 }
 
 fn viol(what: &str, c: &Case, detail: Value) -> Violation {
@@ -174,6 +177,7 @@ pub fn check(exe: &std::path::Path, tag: &str, c: &Case, st: &mut Stats) {
     let mut replica_scores_first: Vec<(i64, Option<f64>)> = vec![];
     for k in 1..=c.max_replications {
         st.eval();
+        let k = c.fixed_replications.unwrap_or(k);
         let mut pre: Vec<String> = vec!["--replications".into(), k.to_string(), "--steps".into(), c.steps.to_string(), "--inner-steps".into(), c.inner_steps.to_string()];
         if c.lj {
             pre.push("-p".into());
@@ -287,6 +291,7 @@ pub fn gen_case<R: Rng>(rng: &mut R, i: usize, kmax: u64) -> Case {
         steps: [200, 500, 1000][rng.gen_range(0, 3)],
         inner_steps: [100, 1000][rng.gen_range(0, 2)],
         extra: if rng.gen_bool(0.3) { vec!["--kt-finish".into(), "0.001".into()] } else { vec![] },
+        fixed_replications: None,
     }
 }
 
@@ -302,7 +307,11 @@ pub fn run(ctx: &Ctx) {
     let n = ctx.tier.pick(28usize, 210usize);
     let kmax = ctx.tier.pick(4u64, 12u64);
     let mut rng = ctx.rng(10);
-    let cases: Vec<Case> = (0..n).map(|i| gen_case(&mut rng, i, kmax)).collect();
+    let mut cases: Vec<Case> = (0..n).map(|i| gen_case(&mut rng, i, kmax)).collect();
+    // many replicas converging onto near-tied scores: the written one must still be the best
+    for (g, shape, lj, reps, steps, step) in [("p1", "circle", true, 48u64, 150u64, "0.02"), ("p2", "circle", true, 40, 400, "0.02"), ("p1", "polygon", false, 32, 600, "0.05")].iter() {
+        cases.push(Case { group: g.to_string(), shape: shape.to_string(), sides: 4, radius: 0.637556, angle: 120., distance: 1., lj: *lj, max_replications: 1, steps: *steps, inner_steps: 1000, extra: vec!["--max-step-size".into(), step.to_string()], fixed_replications: Some(*reps) });
+    }
     use rayon::prelude::*;
     let seed = ctx.seed;
     let all: Vec<Stats> = cases
